@@ -42,7 +42,7 @@ CHECKS = {
    text="Per generated program and explored schedule every callback site discovered by the fault-free run (Init, AfterPropertiesSet, every post-processor callback for every component including the container's own) is made to fail singly - exhaustive per (program, schedule) - plus sampled pairs; unsatisfiable required / optional points are judged by the start-outcome model. Oracle: Run returns an error, no panic, terminates, no runner invoked; optional-only shortfalls never fail and leave the field empty. A share of the substituting family is included (a failure inside a lookup whose caller copes with the error is not Run's to report).",
    note="a fault counts only if it fired in that run", technique=STARTSIM + " + exhaustive single-fault injection at discovered callback sites; oracle: clean-failure checker + start-outcome model"),
  "C12": dict(cat="exploration", engine="startsim", ref="5/C12",
-   text="Seeded programs with post-processors, runners (and simulated loaders) of all three order classes, Order values with ties / negatives / extremes; the arrival order at the (unstable) sorter is permuted by the schedule. Observed callback sequences must be a contract order (priority-ordered < ordered < unordered, Order non-decreasing in the first two groups), every participant exactly once.",
+   text="Seeded programs with post-processors, runners (and simulated loaders) of all three order classes, Order values with ties / negatives / extremes; the arrival order at the (unstable) sorter is permuted by the schedule. Observed callback sequences must be a contract order (priority-ordered < ordered < unordered, Order non-decreasing in the first two groups), every participant exactly once. A processor may replace the component of another processor by an object that is no processor (the other keeps taking part), runners may hold the App and settle their order in Init.",
    note="order among equal Order values / unordered participants is not asserted", technique=STARTSIM + "; oracle: ordering-contract checker on observed callback sequences"),
  "C13": dict(cat="fault_enumeration", engine="startsim", ref="5/C13",
    text="Seeded programs with 0-6 runners (lazy ones included) under K schedules; on the first three schedules every runner in turn fails (exhaustive per explored schedule). Oracle: every runner exactly once on success, nothing is initialised after the first runner started, contract order, a failing runner makes Run fail and no later runner is invoked.",
@@ -54,13 +54,13 @@ CHECKS = {
    text="Twin programs - every tagged field declared directly vs the same fields inside anonymous, untagged, by-value embedded structs (depth 1-3, exported and unexported carriers) - run under identical picks: same outcome, same wiring on every non-tied point, same bound configuration, same tag records. Frame fields of six kinds carry sentinels that must survive every run. 0-2 custom tag scanners (parked and interleaved inside the parallel scanning phase) must receive exactly the exported fields carrying their tag, with value and arguments.",
    note="schedule dependence is weak by design (each scanner goroutine works on its own definition); dominated by program generation, claimed for the phase in which scanning runs concurrently", technique=STARTSIM + "; oracle: twin equivalence, frame sentinels, recording tag processor"),
  "C15": dict(cat="exploration", engine="startsim", ref="5/C15",
-   text="Seeded source sets (raw documents, real FileLoader on files written into the run's scratch directory, real ArgsLoader over a simulated argv, simulated loaders of all order classes) with overlapping and disjoint key trees, added through every option in a generated order, with rare injected source faults. Oracle: reference deep merge in contract order (all orders the contract admits), compared with App.Get for every leaf and with a prefix-bound struct. A share of the programs has 13-24 sources of mostly one rank, command-line sources that blank a key, and simulated loaders that settle their order only before the second initialisation.",
+   text="Seeded source sets (raw documents, real FileLoader on files written into the run's scratch directory, real ArgsLoader over a simulated argv, simulated loaders of all order classes) with overlapping and disjoint key trees, added through every option in a generated order, with rare injected source faults. Oracle: reference deep merge in contract order (all orders the contract admits), compared with App.Get for every leaf and with a prefix-bound struct. A share of the programs has 13-24 sources of mostly one rank, command-line sources that blank a key, and simulated loaders that settle their order only before the second initialisation. Should a start go on although an added source failed to load, the intact sources must still all be merged.",
    note="precedence is judged on fault-free source sets; viper is trusted for YAML decoding", technique="deterministic simulation (startsim, configuration slice) with injected source faults; oracle: reference merge model"),
  "C18": dict(cat="exploration", engine="startsim", ref="5/C18",
    text="Seeded components with configuration fields from a fixed menu (placeholders, defaults, prop shorthand, #{${a}+${b}}, #{${a}*${b}}, prefix-bound values, literals; optional validate constraints) next to user instantiation-aware processors of all order classes; the schedule permutes the arrival order of all processors at the unstable sorter. Oracle: a small evaluator of the menu; Run fails exactly when a bound value violates its constraint or a required value is missing. The menu also has comparison, conjunction, conditional, three-operand, remainder, quotient (float) and string-concatenation expressions (also with blanks at the end), two-default expressions, gt/lt/eq/ne/len constraints, structs whose constraints sit behind a pointer, holders that name their section per instance, and scalar fields the application preset.",
    note="narrow value domain by design: the biconditional over arbitrary values and expressions is input generation, outside this technique", technique="deterministic simulation (startsim, configuration slice); oracle: menu evaluator (placeholder -> expression -> bind -> validate)"),
  "C20": dict(cat="exploration", engine="racesim+linsim", ref="5/C20",
-   text="racesim: generated programs with 8-60 components, 1-3 custom scanners and closers run with the scheduler in parallel mode under the Go race detector; several scanner invocations / closers fail at the same time; zero reports demanded. linsim: the concurrent utilities compiled from a scratch copy with a yield point before every statement; seeded single-runner interleavings of 2-4 clients; porcupine linearizability check against a sequential map / set, with Range as one step and with Range interleavable; plus the plain 'two callers never both win' invariant. linsim also instruments the default definition registry (GetMetaOrRegister / GetMetaByName / RegisterMeta / GetMetas against the sequential map; locks in instrumented code are taken cooperatively, a state in which every live client waits for a lock is a violation of its own); racesim runs programs with an odd index under the library's own logger, and failing closers return an error object whose Error() reads a word the application writes once App.Close has returned. Enumerations (Range, ToArray, GetMetas) that overlap mutations are additionally judged key by key (a mapping the key had at some moment of the call) and must hand out only what somebody stored, every key once.",
+   text="racesim: generated programs with 8-60 components, 1-3 custom scanners and closers run with the scheduler in parallel mode under the Go race detector; several scanner invocations / closers fail at the same time; zero reports demanded. linsim: the concurrent utilities compiled from a scratch copy with a yield point before every statement; seeded single-runner interleavings of 2-4 clients; porcupine linearizability check against a sequential map / set, with Range as one step and with Range interleavable; plus the plain 'two callers never both win' invariant. linsim also instruments the default definition registry (GetMetaOrRegister / GetMetaByName / RegisterMeta / GetMetas against the sequential map; locks in instrumented code are taken cooperatively, a state in which every live client waits for a lock is a violation of its own); racesim runs programs with an odd index under the library's own logger, and failing closers return an error object whose Error() reads a word the application writes once App.Close has returned. Enumerations (Range, ToArray, GetMetas) that overlap mutations are additionally judged key by key (a mapping the key had at some moment of the call) and must hand out only what somebody stored, every key once. racesim opens every program with a stress phase on the utilities themselves (four goroutines released together run seeded operation lists on one sync2.Map, one ConcurrentSets and one generic concurrent set) with the race detector as the oracle.",
    note="the race detector's happens-before analysis, porcupine and Go's sync.Map are trusted; each call into sync.Map is one atomic step", technique="deterministic simulation: parallel-wave release under the race detector (racesim) + cooperative scheduling at AST-inserted yield points with porcupine (linsim)"),
  "C10": dict(cat="exploration", engine="startsim", ref="5/C10",
    text="Metamorphic sweep: each generated program is started under K schedules (canonical, reversed, random: registration permutation x three enumeration orders x scan interleaving). Same success/failure for programs without tied points, same target on every non-tied point, agreement with the start-outcome model where it has a verdict. A share of the programs carries a custom scanner that refuses some definitions under every schedule (the start must be refused whatever the interleaving of the scanning phase), and the batches open with rings in which one member is substituted (with and without a holder outside the ring).",
